@@ -28,7 +28,7 @@ def main():
             print("replay:", "property holds on this input" if ok else "property FAILS on this input")
             return 0 if ok else 1
         if not a.no_lean:
-            ctx.lean = leanio.prepare(prop)
+            ctx.lean = leanio.prepare(prop, tier=a.tier)
             if ctx.lean.infra_error:
                 print("infrastructure error:", ctx.lean.infra_error)
                 return 2
